@@ -30,6 +30,10 @@ class PathEnd(Exception):
     pass
 
 
+class BodyEnd(PathEnd):
+    """a loop body has been executed and its invariant obligations recorded (the path ends here)"""
+
+
 class PyRaise(Exception):
     def __init__(self, exc, value=None):
         self.exc, self.value = exc, value
@@ -240,9 +244,10 @@ class VC:
     def __init__(self, name, kind, hyps, goal, decisions):
         self.name, self.kind, self.hyps, self.goal, self.decisions = name, kind, hyps, goal, decisions
         self.status, self.backend, self.seconds, self.detail = None, None, 0.0, ''
+        self.occ = 0       # n-th obligation of this name on this decision prefix (a statement executed twice, two calls of one callee)
 
     def key(self):
-        return (self.name, tuple(self.decisions))
+        return (self.name, tuple(self.decisions), self.occ)
 
     def cls(self):
         """Obligation class for the ledger: name without the path part."""
@@ -257,6 +262,7 @@ class Path:
         self.pc = []
         self.out = []          # yielded values (concrete-length ghost sequence)
         self.ghost = {}
+        self.occ = {}
         self.trace = []        # ghost call trace (e.g. graphviz calls)
 
     # -- logical state
@@ -273,7 +279,10 @@ class Path:
         """Record `pc |- goal` as a VC, then assume the goal."""
         if isinstance(goal, bool):
             goal = BoolVal(goal)
-        self.eng.add_vc(VC(name, kind, list(self.pc), goal, self.decisions[:self.pos]))
+        vc = VC(name, kind, list(self.pc), goal, self.decisions[:self.pos])
+        k = (name, tuple(vc.decisions))
+        vc.occ = self.occ[k] = self.occ.get(k, -1) + 1
+        self.eng.add_vc(vc)
         self.pc.append(goal)
 
     def fresh_int(self, hint='v'):
@@ -327,8 +336,16 @@ class LoopSpec:
     """invariant(E[, k]) -> list of (name, formula); decreases(E) -> Int term or None.
     For `for` loops over an IterV the invariant takes the ghost index k (elements 0..k-1 processed)."""
 
-    def __init__(self, invariant, decreases=None, ghost_havoc=None):
+    def __init__(self, invariant, decreases=None, ghost_havoc=None, phased=False):
         self.invariant, self.decreases, self.ghost_havoc = invariant, decreases, ghost_havoc
+        # phased: the invariant callback takes phase='entry' | 'assume' | 'preserve' and may give the quantified form where the
+        # invariant is assumed and an instance for fresh constants (with `use lemma` instances) where it is to be proved
+        self.phased = phased
+
+    def inv(self, phase, *args):
+        if self.phased:
+            return self.invariant(*args, phase=phase)
+        return self.invariant(*args)
 
 
 class EnvView:
@@ -363,6 +380,7 @@ class Engine:
         self.fname = fname
         self.axioms = list(axioms)       # list of (name, formula)
         self.vcs = {}
+        self.body_ends = []     # (decisions, pc) at the end of every executed loop body: vacuity probes
         self.worklist = []
         self.counter = itertools.count()
         self.feas_timeout_ms = feas_timeout_ms
@@ -420,8 +438,12 @@ class Engine:
                     except PyRaise as r:
                         outcome = ('raise', r.exc)
                     finish(path, env, outcome)
+                except BodyEnd:
+                    self.body_ends.append((list(path.decisions[:path.pos]), list(path.pc)))
                 except PathEnd:
                     pass
+            except BodyEnd:
+                self.body_ends.append((list(path.decisions[:path.pos]), list(path.pc)))
             except PathEnd:
                 pass
             except Unsupported as e:
@@ -738,7 +760,7 @@ class Interp:
             raise Unsupported('while/else')
         if getattr(spec, 'on_entry', None):
             spec.on_entry(p, env)
-        for nm, f in spec.invariant(EnvView(env, p)):
+        for nm, f in spec.inv('entry', EnvView(env, p)):
             p.oblige('inv.entry#%d/%s' % (n, nm), 'inv.entry', f)
         mod = assigned_names(st.body) | set(getattr(spec, 'modifies', ()))
         for v in list(mod):
@@ -747,7 +769,7 @@ class Interp:
         self.havoc(mod, env)
         if spec.ghost_havoc:
             spec.ghost_havoc(p, env)
-        for nm, f in spec.invariant(EnvView(env, p)):
+        for nm, f in spec.inv('assume', EnvView(env, p)):
             p.assume(f)
         if p.branch_truthy(self.eval(st.test, env)):
             v0 = spec.decreases(EnvView(env, p)) if spec.decreases else None
@@ -757,12 +779,12 @@ class Interp:
                 pass
             except _Break:
                 raise Unsupported('break in while loop')
-            for nm, f in spec.invariant(EnvView(env, p)):
+            for nm, f in spec.inv('preserve', EnvView(env, p)):
                 p.oblige('inv.preserve#%d/%s' % (n, nm), 'inv.preserve', f)
             if v0 is not None:
                 v1 = spec.decreases(EnvView(env, p))
                 p.oblige('variant#%d' % n, 'variant', And(v1 >= 0, v1 < v0))
-            raise PathEnd('loop body done')
+            raise BodyEnd('loop body done')
         # exit: invariant and not cond are in pc
 
     def exec_for(self, st, env):
@@ -799,7 +821,7 @@ class Interp:
         p.assume(it.length >= 0)
         if getattr(spec, 'on_entry', None):
             spec.on_entry(p, env)
-        for nm, f in spec.invariant(EnvView(env, p), IntVal(0)):
+        for nm, f in spec.inv('entry', EnvView(env, p), IntVal(0)):
             p.oblige('inv.entry#%d/%s' % (n, nm), 'inv.entry', f)
         mod = assigned_names(st.body) | assigned_names([ast.Expr(st.target)]) | set(getattr(spec, 'modifies', ()))
         for v in list(mod):
@@ -812,7 +834,7 @@ class Interp:
             o.havoc(p)
         if spec.ghost_havoc:
             spec.ghost_havoc(p, env)
-        for nm, f in spec.invariant(EnvView(env, p), k):
+        for nm, f in spec.inv('assume', EnvView(env, p), k):
             p.assume(f)
         if p.branch(k < it.length):
             p.ghost['k'] = p.ghost['k#%d' % n] = k      # ghost loop index, visible to `use lemma` hooks
@@ -839,9 +861,9 @@ class Interp:
                     p.oblige('yield#%d/value' % n, 'yield', yval(new[0]) if callable(yval) else self.values_equal(new[0], yval))
             elif len(p.out) != n_out:
                 raise Unsupported('yield inside a contract loop without a yields clause')
-            for nm, f in spec.invariant(EnvView(env, p), k + 1):
+            for nm, f in spec.inv('preserve', EnvView(env, p), k + 1):
                 p.oblige('inv.preserve#%d/%s' % (n, nm), 'inv.preserve', f)
-            raise PathEnd('loop body done')
+            raise BodyEnd('loop body done')
         p.assume(k == it.length)
 
     def values_equal(self, a, b):
